@@ -19,6 +19,8 @@ type Case struct {
 	Set    *ymodel.Set `json:"set"`
 	Orders [][]int     `json:"orders,omitempty"`
 	Fault  string      `json:"fault,omitempty"`
+	// Fetch: these sources are not handed over; they wait in a search-path directory and are fetched by Process
+	Fetch []string `json:"fetch,omitempty"`
 }
 
 func check(c Case) (o ev.Outcome) {
@@ -43,6 +45,9 @@ func check(c Case) (o ev.Outcome) {
 		}
 	}
 	o.Class(fmt.Sprintf("augments-%d", minInt(naug, 6)))
+	if len(c.Fetch) > 0 {
+		o.Class("one-module-fetched-from-search-path")
+	}
 	if chained {
 		o.Class("augment-of-augment")
 	}
@@ -64,7 +69,7 @@ func check(c Case) (o ev.Outcome) {
 	for oi, ord := range orders {
 		srcs := schema.Sources(c.Set, ord)
 		var obs *schema.Observed
-		if !ev.Guard(&o, "load+process", func() { obs = schema.Load(srcs, nil) }) {
+		if !ev.Guard(&o, "load+process", func() { obs = schema.LoadFetched(srcs, c.Fetch, nil) }) {
 			for i := range o.Violations {
 				if c.Fault != "" {
 					o.Violations[i].Sig = "C07/" + o.Violations[i].Sig + "/with-" + c.Fault
@@ -261,6 +266,7 @@ func gen(t *rapid.T) Case {
 	if n > 1 {
 		c.Orders = append(c.Orders, schema.Order(t, n), schema.Order(t, n))
 	}
+	c.Fetch = schema.PlanFetch(t, set)
 	return c
 }
 
